@@ -7,6 +7,7 @@
 #include <map>
 
 #include "coloquinte.hpp"
+#include "circ.hpp"
 #include "vf.hpp"
 
 using namespace coloquinte;
@@ -177,8 +178,40 @@ static void bindingCase(uint64_t idx, CaseResult &r) {
   }
 }
 
+// The three placement entry points are bound through wrapper lambdas (they release the interpreter lock): run each registered
+// wrapper on a small circuit and compare its effect with the C++ member the Python name promises.
+static void wrapperCase(uint64_t idx, Rng &rng, CaseResult &r) {
+  (void)observed();
+  struct W { const char *py; int which; };
+  static const W wanted[3] = {{"Circuit.place_global", 0}, {"Circuit.legalize", 1}, {"Circuit.place_detailed", 2}};
+  const W &wnt = wanted[idx % 3];
+  vfc::GenOpts o = vfc::makeProfile(rng, "general");
+  o.maxCells = 15;
+  o.minRowWidth4H = true;
+  Circuit c0 = vfc::genCircuit(rng, o);
+  ColoquinteParameters p((int)rng.range(1, 4), (int)rng.range(0, 50));
+  p.global.maxNbSteps = 4;
+  if (r.needSample()) r.sample = vf::J::obj().kv("what", "wrapper lambda run against the member of the same name").kv("python_name", wnt.py).kraw("circuit", vfc::circuitJson(c0)).str();
+  if (r.dumpOnly) return;
+  const py::ErasedCall3 *fn = nullptr;
+  for (auto &l : py::lambdas3()) if (l.first == wnt.py) fn = &l.second;
+  if (!fn) { r.inconclusive = true; r.fail("harness:wrapper-not-registered", std::string(wnt.py) + " is not registered as a three-argument wrapper any more: extend harness/h_bind.cpp"); return; }
+  Circuit a = c0, b = c0;
+  int cbA = 0, cbB = 0;
+  std::optional<PlacementCallback> ca = PlacementCallback([&](PlacementStep) { ++cbA; }), cb = PlacementCallback([&](PlacementStep) { ++cbB; });
+  std::string ea, eb;
+  try { (*fn)(&a, &p, &ca); } catch (const std::exception &e) { ea = e.what(); }
+  try { if (wnt.which == 0) b.placeGlobal(p, cb); else if (wnt.which == 1) b.legalize(p, cb); else b.placeDetailed(p, cb); } catch (const std::exception &e) { eb = e.what(); }
+  if (ea != eb || a.cellX_ != b.cellX_ || a.cellY_ != b.cellY_ || a.cellOrientation_ != b.cellOrientation_ || cbA != cbB)
+    r.fail("C20:wrapper-does-not-call-the-member-of-its-name", std::string(wnt.py) + " behaves differently from the C++ member it is named after (callbacks " + std::to_string(cbA) + " vs " + std::to_string(cbB) + (ea != eb ? ", outcome '" + ea + "' vs '" + eb + "'" : "") + ")");
+  r.count("wrappers_run");
+  r.nontrivial = true;
+  r.sig = wnt.py;
+}
+
 int main(int argc, char **argv) {
   std::vector<vf::Part> parts;
+  parts.push_back({"c20.wrappers", [](uint64_t idx, Rng &rng, CaseResult &r) { wrapperCase(idx, rng, r); }, 60});
   parts.push_back({"c20.bindings", [](uint64_t idx, Rng &, CaseResult &r) { bindingCase(idx, r); }, 30});
   return vf::runMain(argc, argv, parts);
 }
